@@ -38,7 +38,7 @@ type Program struct {
 var families = []string{"buffer", "deadline", "dpipe", "vnet", "filters", "udp", "build-networks", "nat"}
 
 // number of operation codes per family
-var nOps = map[string]int{"buffer": 9, "deadline": 6, "dpipe": 7, "vnet": 12, "filters": 9, "udp": 7, "build-networks": 3, "nat": 10}
+var nOps = map[string]int{"buffer": 9, "deadline": 6, "dpipe": 7, "vnet": 12, "filters": 9, "udp": 7, "build-networks": 3, "nat": 13}
 
 func quiet() logging.LoggerFactory {
 	lf := logging.NewDefaultLoggerFactory()
@@ -501,6 +501,14 @@ func newNATWorld(goroutines int) (*world, error) {
 	_ = s1.SetReadDeadline(time.Time{})
 	var nextPort atomic.Int32
 	nextPort.Store(10000)
+	// names known to the WAN router only: a host behind the LAN router resolves them through
+	// its own router's resolver, which asks the parent
+	for i := 0; i < 64; i++ {
+		if err := wan.AddHost(fmt.Sprintf("h%d.wan.test", i), "27.0.0.50"); err != nil {
+			return nil, err
+		}
+	}
+	var nextName, nextHost atomic.Int32
 	return &world{
 		run: func(g, op int) {
 			switch op {
@@ -534,6 +542,16 @@ func newNATWorld(goroutines int) (*world, error) {
 			case 9:
 				time.Sleep(2500 * time.Microsecond) // past the short mapping lifetime
 				_, _ = cl.WriteTo([]byte("after-expiry"), a1)
+			case 10:
+				// a name nobody behind the LAN router has asked for yet, then a known one
+				_, _ = lh.ResolveUDPAddr("udp", fmt.Sprintf("h%d.wan.test:9000", nextName.Add(1)%64))
+				_, _ = lh.ResolveUDPAddr("udp", "h0.wan.test:9000")
+			case 11:
+				_, _ = w1.ResolveIPAddr("ip", fmt.Sprintf("h%d.wan.test", nextName.Add(1)%64))
+				_, _ = lh.ResolveIPAddr("ip", "no.such.host.test")
+			case 12:
+				_ = lan.AddHost(fmt.Sprintf("l%d.lan.test", nextHost.Add(1)), "192.168.0.10")
+				_, _ = lh.ResolveUDPAddr("udp", "l1.lan.test:4000")
 			}
 		},
 		release: func() { _ = cl.Close(); _ = s1.Close(); _ = s2.Close(); _ = wan.Stop() },
@@ -592,7 +610,7 @@ func genProgram(t *rapid.T) Program {
 	return p
 }
 
-const ruleC19 = "rapid-drawn client programs: one family of shared objects (packetio.Buffer; deadline.Deadline; a dpipe pair; a vnet router with two hosts, their sockets, ListenUDP/Dial, AddChunkFilter, Stop/Start, AddNet of fresh hosts while it forwards; a router with a TokenBucketFilter and a LossFilter under traffic while TBFRate/TBFMaxBurst are Set; a udp listener with Accept/Close and connection Read/Write/Close on a real socket; building independent virtual networks in parallel; a LAN router behind a NAPT under outbound traffic to known and new remotes, inbound traffic to the learned external address, new sockets and mapping expiry), 2..6 goroutines each running 1..8 drawn operations concurrently; executed for real in a binary built with -race and GORACE=halt_on_error=1; oracle: the race detector (any report is a violation); every program touches the shared objects from >=2 goroutines with mutating operations, so every program counts as non-trivial; distinct by hash of the program"
+const ruleC19 = "rapid-drawn client programs: one family of shared objects (packetio.Buffer; deadline.Deadline; a dpipe pair; a vnet router with two hosts, their sockets, ListenUDP/Dial, AddChunkFilter, Stop/Start, AddNet of fresh hosts while it forwards; a router with a TokenBucketFilter and a LossFilter under traffic while TBFRate/TBFMaxBurst are Set; a udp listener with Accept/Close and connection Read/Write/Close on a real socket; building independent virtual networks in parallel; a LAN router behind a NAPT under outbound traffic to known and new remotes, inbound traffic to the learned external address, new sockets, mapping expiry, and name resolution through the child router's resolver while hosts are added), 2..6 goroutines each running 1..8 drawn operations concurrently; executed for real in a binary built with -race and GORACE=halt_on_error=1; oracle: the race detector (any report is a violation); every program touches the shared objects from >=2 goroutines with mutating operations, so every program counts as non-trivial; distinct by hash of the program"
 
 func TestC19Programs(t *testing.T) {
 	r := ev.New("C19", "programs", ruleC19)
